@@ -59,9 +59,10 @@ func gpgPublicKeyAttributes(pk *packet.PublicKey) []Attribute {
 	}
 	switch t := pk.PublicKey.(type) {
 	case *ecdsa.PublicKey:
-		attrs = append(attrs, Attribute{"Curve", t.Curve.Params().Name})
+		// the same curve string as every other container shows for this key
+		attrs = append(attrs, Attribute{"Curve", names.FromCurveParams(t.Curve.Params())})
 	case ed25519.PublicKey:
-		attrs = append(attrs, Attribute{"Curve", "Ed25519"})
+		attrs = append(attrs, Attribute{"Curve", names.Curve("Ed25519")})
 	}
 	l, err := pk.BitLength()
 	if err == nil {
